@@ -134,7 +134,10 @@ fn decode_loop(
                 total_bytes_read += bytes_read;
                 // The output is already reserved to the size of the input. We slowly resize. Here,
                 // we're expecting that 10% of bytes will double in size when converting to UTF-8.
-                output.reserve(input.len() / 10);
+                // Always make room for at least a few characters: `reserve(0)` (inputs shorter than
+                // 10 bytes) or a step smaller than the next character would never let the decoder
+                // make progress and we would loop forever.
+                output.reserve((input.len() / 10).max(16));
             }
             (DecoderResult::Malformed(malformed_len, bytes_after_malformed), bytes_read) => {
                 total_bytes_read += bytes_read;
